@@ -268,6 +268,12 @@ func (e *Exec) intrinsic(fn *ssa.Function, name string, args []Value) (Value, bo
 		e.cmd.fileName = args[0].(*StringV)
 		e.cmd.file = args[1].(*SliceV)
 		return nil, true
+	case "vCmdInPlace":
+		e.cmd.fileName = &StringV{lit: "out.dat"}
+		e.cmd.file = args[1].(*SliceV)
+		e.cmd.inPlace = true
+		e.cmd.flags[e.constString(args[0])] = &StringV{lit: "out.dat"}
+		return nil, true
 	case "vCmdFlag":
 		e.cmd.flags[e.constString(args[0])] = args[1]
 		return nil, true
@@ -622,6 +628,10 @@ func (e *Exec) stub(fn *ssa.Function, full string, args []Value) (Value, bool) {
 			e.unsupported("os.ReadFile without vCmdFile")
 		}
 		e.cmd.readName = args[0].(*StringV)
+		if e.cmd.trunc {
+			// in place and the output was created (truncated) first: nothing left to read
+			return TupleV{&SliceV{obj: e.cmd.file.obj, path: e.cmd.file.path, off: e.cmd.file.off, len: e.c64(0), cap: e.c64(0)}, &IfaceV{}}, true
+		}
 		return TupleV{e.cmd.file, &IfaceV{}}, true
 	case "os.OpenFile":
 		// write-only create: with O_TRUNC it is os.Create; without, whatever an
@@ -636,6 +646,8 @@ func (e *Exec) stub(fn *ssa.Function, full string, args []Value) (Value, bool) {
 		}
 		if fl.val&oTrunc == 0 {
 			e.cmd.noTrunc = true
+		} else if e.cmd.inPlace {
+			e.cmd.trunc = true
 		}
 		e.objSeq++
 		return TupleV{&PtrV{obj: e.newObj(&OpaqueV{kind: "file", id: e.objSeq}, "file")}, &IfaceV{}}, true
@@ -645,6 +657,11 @@ func (e *Exec) stub(fn *ssa.Function, full string, args []Value) (Value, bool) {
 			e.unsupported("os.Open without vCmdFile")
 		}
 		e.cmd.readName = args[0].(*StringV)
+		if e.cmd.trunc {
+			f := *e.cmd.file
+			f.len, f.cap = e.c64(0), e.c64(0)
+			e.cmd.file = &f
+		}
 		e.objSeq++
 		return TupleV{&PtrV{obj: e.newObj(&OpaqueV{kind: "file", id: e.objSeq, data: &inFile{pos: e.c64(0)}}, "input file")}, &IfaceV{}}, true
 	case "(*os.File).Stat":
@@ -732,6 +749,9 @@ func (e *Exec) stub(fn *ssa.Function, full string, args []Value) (Value, bool) {
 		}
 		return TupleV{sl.len, &IfaceV{}}, true
 	case "os.Create":
+		if e.cmd.inPlace {
+			e.cmd.trunc = true
+		}
 		e.objSeq++
 		return TupleV{&PtrV{obj: e.newObj(&OpaqueV{kind: "file", id: e.objSeq}, "file")}, &IfaceV{}}, true
 	case "(*os.File).Close":
